@@ -262,7 +262,7 @@ def add_obligations(out, prop, work=None):
             raise Infra(f"GEN: vacuous harness {h}")
         ok = r["status"] == "Success" and not failed
         name = f"{prop}/gen/{h}"
-        out.add_ob(name, "gen", "Kani/CBMC+CaDiCaL on the annotated copy of bitbybit/src", ok)
+        out.add_ob(name, "gen-bounded" if h in BOUNDS else "gen", "Kani/CBMC+CaDiCaL on the annotated copy of bitbybit/src", ok)
         out.functions.add("bitbybit::" + h[len("gen_"):])
         out.solver_s += r.get("solver_s") or 0.0
         if h in BOUNDS:
